@@ -183,7 +183,7 @@ def part_A(rec, tier, seed, fr, to, only=None):
                     for lm in ((False, True) if op in ("derivative", "cumint", "integrate", "average") else (False,)):
                         idx += 1
                         case = dict(part="A", fr=fr, to=to, cx=list(cx), ct=list(ct), cy=list(cy), op=op, axis=axis, lm=lm)
-                        if only is not None and only != case:
+                        if only is not None and only != {k: v for k, v in case.items()} and only != dict(case, layout="x-first-float32"):
                             continue
                         gg = glazy if lm else g
                         chunked_axis = len(cx) > 1 if (axis == "X" or axis == "mo" or axis == "nomo" or (isinstance(axis, list) and "X" in axis)) else False
@@ -199,6 +199,13 @@ def part_A(rec, tier, seed, fr, to, only=None):
                             eager = lambda: call(gg, op, e_in, axis, kw)
                             refuse = chunked_axis and io and op in REFUSABLE
                         anych = len(cx) > 1 or len(ct) > 1 or len(cy) > 1
+                        if op != "ufunc" and idx % 4 == 1:
+                            # the operated dimension first, in single precision: neither the position of
+                            # the core dimension among the others nor the dtype may matter
+                            e_t = e_in.transpose(POSD[fr], "t", "yc").astype(np.float32)
+                            case = dict(case, layout="x-first-float32")
+                            build = lambda: call(gg, op, e_t.chunk(chunks), axis, kw)
+                            eager = lambda: call(gg, op, e_t, axis, kw)
                         second = None
                         if op != "ufunc" and idx % 3 == 0:
                             e2_in = (e_in * 3 + 1).rename("q2")
